@@ -58,7 +58,9 @@ def translate():
              os.path.join(LEAN, "IppModel", "Generated", "Source.lean")])
     r2 = sh([sys.executable, os.path.join(ROOT, "gen", "registry.py"), os.path.join(ROOT, "spec", "registry.txt"),
              os.path.join(LEAN, "IppModel", "Spec", "Registry.lean")])
-    return (r1.stdout or "") + (r2.stdout or "")
+    r3 = sh([sys.executable, os.path.join(ROOT, "gen", "names.py"), os.path.join(ROOT, "spec", "names.txt"),
+             os.path.join(LEAN, "IppModel", "Spec", "Names.lean")])
+    return (r1.stdout or "") + (r2.stdout or "") + (r3.stdout or "")
 
 
 def lake(target):
@@ -121,7 +123,7 @@ def audit(pid, names, thorough):
         if extra:
             res["bad"].append(f"{n}: depends on {extra}")
     for mod in imported_files(pid):
-        if mod.startswith("IppModel.Generated") or mod.startswith("IppModel.Spec.Registry"):
+        if mod.startswith("IppModel.Generated") or mod.startswith("IppModel.Spec.Registry") or mod.startswith("IppModel.Spec.Names"):
             continue
         src = strip_lean_comments(open(os.path.join(LEAN, mod.replace(".", "/") + ".lean"), encoding="utf-8").read())
         for i, line in enumerate(src.splitlines(), 1):
